@@ -4,3 +4,4 @@ import DDProofs.Ext
 import DDProofs.Inv
 import DDProofs.ParseProofs
 import DDProofs.LexProofs
+import DDProofs.ToExprProofs
